@@ -267,7 +267,7 @@ impl<'t, 'c> Gen<'t, 'c> {
             7 => {
                 // MOD on whole-number typed operands
                 let a = self.whole_expr(depth - 1);
-                let b = if self.cfg.errors && self.t.chance(1, 25) { Expr::Lit(Lit::Whole(0)) } else { Expr::Lit(Lit::Whole(*self.t.pick(&[3, 2, 5, 7, 10]))) };
+                let b = if self.cfg.errors && self.t.chance(1, 25) { Expr::Lit(Lit::Whole(0)) } else { Expr::Lit(Lit::Whole(*self.t.pick(&[3, 2, 5, 7, 10, 3, 60000, 40001]))) };
                 Expr::Paren(Box::new(Expr::Bin(BinOp::Mod, Box::new(self.paren_if_binary(a)), Box::new(b))))
             }
             8 => {
